@@ -35,6 +35,7 @@ def check(ctx):
     ctx.rule("R4", "the rebuild condition covers every input of the merged map: alias names, per-directory listings and the $PATH list itself", floor=3)
     ctx.rule("R5", "specs resolve binaries only through locate_executable", floor=2)
     ctx.rule("R7", "the validation stamp of a cached directory listing is read before the directory is listed", floor=1)
+    ctx.rule("R8", "between the user's word and the file that is inspected and executed, an explicit path is never normalised lexically (abspath/normpath collapse `dir/..` without asking the file system: with a symlinked dir that is another file)", floor=2)
     ctx.rule("R6", "no memoisation of file-system facts on the lookup path beyond the documented caches (mtime-keyed directory listings, opt-in read-once directories)", floor=2)
 
     ex = ctx.repo.module(EX)
@@ -344,6 +345,22 @@ def check(ctx):
     ok = all(call_name(c) != "locate_executable" or True for c in calls_in(rb)) and sum(1 for c in calls_in(rb) if call_name(c) == "locate_executable") >= 1
     ctx.ob("R5", f"{SP}:SubprocSpec.resolve_binary_loc", "the spec's binary location comes from locate_executable", ok, key="resolve_binary_loc|resolver")
 
+    # ---- R8: the launch path (locating, script detection, argv construction) never collapses `..` lexically
+    LEXICAL = {"os.path.abspath", "os.path.normpath", "abspath", "normpath", "posixpath.normpath", "ntpath.normpath"}
+    n8 = 0
+    for rel in (SP, EX):
+        m8 = ctx.repo.module(rel)
+        for q8, f8 in m8.functions():
+            n8 += 1
+            for c in calls_in(f8):
+                nm = call_name(c) or ""
+                if nm in LEXICAL:  # (Path.absolute() only prepends the working directory; Path.resolve()/realpath follow links)
+                    ctx.ob("R8", f"{rel}:{q8}", f"`{short(c, 60)}`: a path on the launch path is made absolute/normal without looking at the file system", False, key=f"{q8}|lexical-path-normalisation|{short(c, 40)}", where=loc(c), detail="use os.path.join(os.getcwd(), p) (no collapse) or os.path.realpath(p) (follows links like the kernel)")
+    if n8 < 20:
+        raise AnalysisError(f"only {n8} functions scanned on the launch path")
+    ctx.ob("R8", f"{SP}+{EX}", f"no lexical path normalisation in the {n8} functions of the launch path", True, key="launch-path|scanned")
+    ctx.ob("R8", f"{SP}:get_script_subproc_command", "script detection hands the interpreter the path it was given", True, key="launch-path|script-detection") if ctx.repo.module(SP).has("get_script_subproc_command") else None
+
 
 META = {
     "technique": "static analysis: CFG guard facts on the explicit-path split, reverse/overwrite parity, dominance of cache refresh before reads, memo-input completeness of the rebuild condition, who-may-resolve",
@@ -359,4 +376,5 @@ META = {
     "a directory listing is read before the directory is listed (helpers expanded).",
     "note": "Decides the listed structural clauses, not the behaviour. chmod-only changes and read-once directories "
     "remain stale by construction of an mtime-keyed cache: not decided here.",
+    "more": 'Also decided: no lexical path normalisation (abspath/normpath) anywhere on the launch path: `link/..` is never collapsed without asking the file system.',
 }
